@@ -15,6 +15,7 @@ import (
 	"github.com/cloudwego/eino/components/tool"
 	"github.com/cloudwego/eino/compose"
 	"github.com/cloudwego/eino/schema"
+	ucb "github.com/cloudwego/eino/utils/callbacks"
 	"github.com/cloudwego/eino/vsched"
 
 	"verif/lib/gprog"
@@ -26,11 +27,25 @@ type event struct {
 	kind    string // start | end | error
 	unit    string // RunInfo.Name
 	payload string
+	comp    string // RunInfo.Component
+	stream  bool   // delivered through the stream variant of the timing
+}
+
+func (e event) String() string {
+	k := e.kind
+	if e.stream {
+		k += "S"
+	}
+	return fmt.Sprintf("{%s %s %s/%s %s}", e.h, k, e.unit, e.comp, e.payload)
 }
 
 type world struct {
 	events []event
 	hb     *callbacks.HandlerBuilder
+	// function sets of the sub-handlers of the helper handler (utils/callbacks.NewHandlerHelper): name -> timings
+	// (start end error startS endS) the sub-handler has a function for. Handlers not listed here have all five.
+	hfns  map[string]map[string]bool
+	hcomp map[string]string // sub-handler name -> component type it is registered for
 }
 
 // add records an event. Handlers run on the goroutines of the units they observe, so the list is shared:
@@ -41,12 +56,16 @@ func (w *world) add(e event) {
 	vsched.HUnlock()
 }
 
-func readStream[T any](w *world, name, streamMode string, sr *schema.StreamReader[T], kind string, unit string) {
+func (w *world) rec(h, kind string, info *callbacks.RunInfo, payload string, stream bool) {
+	w.add(event{h: h, kind: kind, unit: info.Name, payload: payload, comp: string(info.Component), stream: stream})
+}
+
+func readStream[T any](w *world, name, streamMode string, sr *schema.StreamReader[T], kind string, info *callbacks.RunInfo) {
 	// the copy belongs to the handler: whatever it does with it must not disturb the flow
 	switch streamMode {
 	case "close":
 		sr.Close()
-		w.add(event{name, kind, unit, "<closed>"})
+		w.rec(name, kind, info, "<closed>", true)
 		return
 	case "read1":
 		v, err := sr.Recv()
@@ -57,7 +76,7 @@ func readStream[T any](w *world, name, streamMode string, sr *schema.StreamReade
 		} else if err != io.EOF {
 			p = "<err>"
 		}
-		w.add(event{name, kind, unit, "first:" + p})
+		w.rec(name, kind, info, "first:"+p, true)
 		return
 	}
 	var vals []any
@@ -74,7 +93,7 @@ func readStream[T any](w *world, name, streamMode string, sr *schema.StreamReade
 		vals = append(vals, any(v))
 	}
 	sr.Close()
-	w.add(event{name, kind, unit, "stream:" + bad + concatRendered(vals)})
+	w.rec(name, kind, info, "stream:"+bad+concatRendered(vals), true)
 }
 
 // concatRendered concatenates the chunks a handler drained from its copy (chunk boundaries are not the
@@ -129,6 +148,17 @@ func concatRendered(vals []any) string {
 			sb.WriteString(v.(string))
 		}
 		return sb.String()
+	case *tool.CallbackOutput:
+		// the typed chunks of a streaming tool's answer (helper handler): the responses concatenate
+		var sb strings.Builder
+		for _, v := range vals {
+			o, ok := v.(*tool.CallbackOutput)
+			if !ok || o == nil {
+				return "<nil typed chunk>"
+			}
+			sb.WriteString(o.Response)
+		}
+		return sb.String()
 	}
 	var p []string
 	for _, v := range vals {
@@ -140,23 +170,23 @@ func concatRendered(vals []any) string {
 // recording handler; raw=true: a plain struct (no TimingChecker); otherwise built with HandlerBuilder.
 func (w *world) handler(name string, raw bool, streamMode string) callbacks.Handler {
 	onStart := func(ctx context.Context, info *callbacks.RunInfo, in callbacks.CallbackInput) context.Context {
-		w.add(event{name, "start", info.Name, render(in)})
+		w.rec(name, "start", info, render(in), false)
 		return ctx
 	}
 	onEnd := func(ctx context.Context, info *callbacks.RunInfo, out callbacks.CallbackOutput) context.Context {
-		w.add(event{name, "end", info.Name, render(out)})
+		w.rec(name, "end", info, render(out), false)
 		return ctx
 	}
 	onErr := func(ctx context.Context, info *callbacks.RunInfo, err error) context.Context {
-		w.add(event{name, "error", info.Name, "err"})
+		w.rec(name, "error", info, "err", false)
 		return ctx
 	}
 	onStartS := func(ctx context.Context, info *callbacks.RunInfo, in *schema.StreamReader[callbacks.CallbackInput]) context.Context {
-		readStream(w, name, streamMode, in, "start", info.Name)
+		readStream(w, name, streamMode, in, "start", info)
 		return ctx
 	}
 	onEndS := func(ctx context.Context, info *callbacks.RunInfo, out *schema.StreamReader[callbacks.CallbackOutput]) context.Context {
-		readStream(w, name, streamMode, out, "end", info.Name)
+		readStream(w, name, streamMode, out, "end", info)
 		return ctx
 	}
 	if raw {
@@ -169,6 +199,174 @@ func (w *world) handler(name string, raw bool, streamMode string) callbacks.Hand
 	}
 	return w.hb.OnStartFn(onStart).OnEndFn(onEnd).OnErrorFn(onErr).
 		OnStartWithStreamInputFn(onStartS).OnEndWithStreamOutputFn(onEndS).Build()
+}
+
+// ---------------------------------------------------------------------------------------------------
+// helper handler: utils/callbacks.NewHandlerHelper() builds ONE callbacks.Handler out of typed per-component
+// sub-handlers and dispatches every event by the component type of the unit. Every sub-handler records under its
+// own name; a sub-handler has a function only for the timings of its function set.
+
+var helperComps = []string{"Tool", "ToolsNode", "Lambda", "Graph", "Retriever"}
+
+var helperNames = map[string]string{"Tool": "H.tool", "ToolsNode": "H.toolsnode", "Lambda": "H.lambda", "Graph": "H.graph", "Retriever": "H.retriever"}
+
+// variant -> component -> timings the sub-handler has a function for ("-": no sub-handler registered for the component).
+// full: every function the sub-handler's type offers (the typed handlers have no stream-input function at all);
+// pa / pb: complementary partial sets (pa: the Graph handler is a built handler without stream functions, the Tool
+// handler has OnEnd only; pb: the Graph handler has ONLY stream functions, no ToolsNode / Retriever handler at all).
+var helperSets = map[string]map[string]string{
+	"full": {"Tool": "start end endS error", "ToolsNode": "start end endS error", "Lambda": "start end error startS endS", "Graph": "start end error startS endS", "Retriever": "start end error"},
+	"pa":   {"Tool": "end", "ToolsNode": "start end", "Lambda": "end", "Graph": "start end error", "Retriever": "error"},
+	"pb":   {"Tool": "start endS error", "ToolsNode": "-", "Lambda": "start error", "Graph": "startS endS", "Retriever": "-"},
+}
+
+// generic builds a callbacks.Handler that has exactly the functions of fns; raw (only with all five): a plain struct.
+func (w *world) generic(name string, fns map[string]bool, raw bool, streamMode string) callbacks.Handler {
+	onStart := func(ctx context.Context, info *callbacks.RunInfo, in callbacks.CallbackInput) context.Context {
+		w.rec(name, "start", info, render(in), false)
+		return ctx
+	}
+	onEnd := func(ctx context.Context, info *callbacks.RunInfo, out callbacks.CallbackOutput) context.Context {
+		w.rec(name, "end", info, render(out), false)
+		return ctx
+	}
+	onErr := func(ctx context.Context, info *callbacks.RunInfo, err error) context.Context {
+		w.rec(name, "error", info, "err", false)
+		return ctx
+	}
+	onStartS := func(ctx context.Context, info *callbacks.RunInfo, in *schema.StreamReader[callbacks.CallbackInput]) context.Context {
+		readStream(w, name, streamMode, in, "start", info)
+		return ctx
+	}
+	onEndS := func(ctx context.Context, info *callbacks.RunInfo, out *schema.StreamReader[callbacks.CallbackOutput]) context.Context {
+		readStream(w, name, streamMode, out, "end", info)
+		return ctx
+	}
+	if raw && len(fns) == 5 {
+		return &rawHandler{onStart, onEnd, onErr, onStartS, onEndS}
+	}
+	hb := callbacks.NewHandlerBuilder() // its own builder: the absent functions must stay absent
+	if fns["start"] {
+		hb.OnStartFn(onStart)
+	}
+	if fns["end"] {
+		hb.OnEndFn(onEnd)
+	}
+	if fns["error"] {
+		hb.OnErrorFn(onErr)
+	}
+	if fns["startS"] {
+		hb.OnStartWithStreamInputFn(onStartS)
+	}
+	if fns["endS"] {
+		hb.OnEndWithStreamOutputFn(onEndS)
+	}
+	return hb.Build()
+}
+
+func (w *world) helper(variant string, raw bool, streamMode string) callbacks.Handler {
+	w.hfns = map[string]map[string]bool{}
+	w.hcomp = map[string]string{}
+	sets := map[string]map[string]bool{}
+	for _, comp := range helperComps {
+		spec := helperSets[variant][comp]
+		if spec == "-" {
+			continue
+		}
+		fns := map[string]bool{}
+		for _, t := range strings.Fields(spec) {
+			fns[t] = true
+		}
+		sets[comp] = fns
+		w.hfns[helperNames[comp]] = fns
+		w.hcomp[helperNames[comp]] = comp
+	}
+	hh := ucb.NewHandlerHelper()
+	onErr := func(name string) func(ctx context.Context, info *callbacks.RunInfo, err error) context.Context {
+		return func(ctx context.Context, info *callbacks.RunInfo, err error) context.Context {
+			w.rec(name, "error", info, "err", false)
+			return ctx
+		}
+	}
+	if fns := sets["Tool"]; fns != nil {
+		n := helperNames["Tool"]
+		h := &ucb.ToolCallbackHandler{}
+		if fns["start"] {
+			h.OnStart = func(ctx context.Context, info *callbacks.RunInfo, in *tool.CallbackInput) context.Context {
+				w.rec(n, "start", info, render(in), false)
+				return ctx
+			}
+		}
+		if fns["end"] {
+			h.OnEnd = func(ctx context.Context, info *callbacks.RunInfo, out *tool.CallbackOutput) context.Context {
+				w.rec(n, "end", info, render(out), false)
+				return ctx
+			}
+		}
+		if fns["endS"] {
+			h.OnEndWithStreamOutput = func(ctx context.Context, info *callbacks.RunInfo, out *schema.StreamReader[*tool.CallbackOutput]) context.Context {
+				readStream(w, n, streamMode, out, "end", info)
+				return ctx
+			}
+		}
+		if fns["error"] {
+			h.OnError = onErr(n)
+		}
+		hh.Tool(h)
+	}
+	if fns := sets["ToolsNode"]; fns != nil {
+		n := helperNames["ToolsNode"]
+		h := &ucb.ToolsNodeCallbackHandlers{}
+		if fns["start"] {
+			h.OnStart = func(ctx context.Context, info *callbacks.RunInfo, in *schema.Message) context.Context {
+				w.rec(n, "start", info, render(in), false)
+				return ctx
+			}
+		}
+		if fns["end"] {
+			h.OnEnd = func(ctx context.Context, info *callbacks.RunInfo, out []*schema.Message) context.Context {
+				w.rec(n, "end", info, render(out), false)
+				return ctx
+			}
+		}
+		if fns["endS"] {
+			h.OnEndWithStreamOutput = func(ctx context.Context, info *callbacks.RunInfo, out *schema.StreamReader[[]*schema.Message]) context.Context {
+				readStream(w, n, streamMode, out, "end", info)
+				return ctx
+			}
+		}
+		if fns["error"] {
+			h.OnError = onErr(n)
+		}
+		hh.ToolsNode(h)
+	}
+	if fns := sets["Retriever"]; fns != nil {
+		n := helperNames["Retriever"]
+		h := &ucb.RetrieverCallbackHandler{}
+		if fns["start"] {
+			h.OnStart = func(ctx context.Context, info *callbacks.RunInfo, in *retriever.CallbackInput) context.Context {
+				w.rec(n, "start", info, render(in), false)
+				return ctx
+			}
+		}
+		if fns["end"] {
+			h.OnEnd = func(ctx context.Context, info *callbacks.RunInfo, out *retriever.CallbackOutput) context.Context {
+				w.rec(n, "end", info, render(out), false)
+				return ctx
+			}
+		}
+		if fns["error"] {
+			h.OnError = onErr(n)
+		}
+		hh.Retriever(h)
+	}
+	if fns := sets["Lambda"]; fns != nil {
+		hh.Lambda(w.generic(helperNames["Lambda"], fns, raw, streamMode))
+	}
+	if fns := sets["Graph"]; fns != nil {
+		hh.Graph(w.generic(helperNames["Graph"], fns, raw, streamMode))
+	}
+	return hh.Handler()
 }
 
 type rawHandler struct {
@@ -212,6 +410,26 @@ func render(v any) string {
 			p = append(p, render(m))
 		}
 		return "[" + strings.Join(p, ",") + "]"
+	case *tool.CallbackInput:
+		if x == nil {
+			return "<nil typed payload>"
+		}
+		return x.ArgumentsInJSON
+	case *tool.CallbackOutput:
+		if x == nil {
+			return "<nil typed payload>"
+		}
+		return x.Response
+	case *retriever.CallbackInput:
+		if x == nil {
+			return "<nil typed payload>"
+		}
+		return x.Query
+	case *retriever.CallbackOutput:
+		if x == nil {
+			return "<nil typed payload>"
+		}
+		return fmt.Sprintf("%v", x.Docs)
 	}
 	return fmt.Sprintf("%v", v)
 }
@@ -229,6 +447,35 @@ type spec struct {
 	call      string // invoke | stream
 	streamMod string // drain | close | read1
 	yields    bool
+	helper    string // "" | call (one extra per-call option) | global | node (designated to a node): where the helper handler is passed
+	hvariant  string // full | pa | pb: function sets of the helper's sub-handlers (helperSets)
+}
+
+// timings names the timing through which a unit's start and its end-type event are delivered in this run (the
+// documented rule: a unit whose own interface consumes / produces a stream reports through the stream timing; a
+// graph called with Stream runs as a stream-to-stream unit, so do its sub-graphs; an invokable lambda / tool and a
+// retriever exchange plain values; the tools node consumes a message and, in a streamed run, produces a stream).
+// Only the helper's sub-handlers need it: a sub-handler without a function for a timing must not be called for it.
+func (sp *spec) timings(u unit) (string, string) {
+	st, en := "start", "end"
+	switch u.comp {
+	case "Graph":
+		if sp.call == "stream" {
+			st, en = "startS", "endS"
+		}
+	case "ToolsNode":
+		if sp.call == "stream" {
+			en = "endS"
+		}
+	case "Tool":
+		if u.streamTool {
+			en = "endS"
+		}
+	}
+	if u.fails {
+		en = "error"
+	}
+	return st, en
 }
 
 var input = gprog.Val{"in": "x"}
@@ -245,6 +492,7 @@ func lam(key string, yield bool) *compose.Lambda {
 type recTool struct {
 	name  string
 	yield bool
+	fails bool
 }
 
 func (t *recTool) Info(ctx context.Context) (*schema.ToolInfo, error) {
@@ -254,7 +502,27 @@ func (t *recTool) InvokableRun(ctx context.Context, args string, opts ...tool.Op
 	if t.yield {
 		vsched.Yield()
 	}
+	if t.fails {
+		return "", errors.New("tool-failed")
+	}
 	return t.name + "(" + args + ")", nil
+}
+
+// recSTool is a tool that only streams its answer (two chunks): its end is reported through the stream timing in
+// Invoke and in Stream.
+type recSTool struct {
+	name  string
+	yield bool
+}
+
+func (t *recSTool) Info(ctx context.Context) (*schema.ToolInfo, error) {
+	return &schema.ToolInfo{Name: t.name, Desc: t.name}, nil
+}
+func (t *recSTool) StreamableRun(ctx context.Context, args string, opts ...tool.Option) (*schema.StreamReader[string], error) {
+	if t.yield {
+		vsched.Yield()
+	}
+	return schema.StreamReaderFromArray([]string{t.name + "(", args + ")"}), nil
 }
 
 // fakeRetriever is a sub-component run by flow/retriever/utils.ConcurrentRetrieveWithCallback.
@@ -283,6 +551,8 @@ type unit struct {
 	inSub      bool // inside the sub-graph node "s"
 	isSub      bool
 	leaf       string
+	comp       string // component type of the unit's run info: Graph | Lambda | Tool | ToolsNode | Retriever
+	streamTool bool   // a tool that streams its answer
 }
 
 func (sp *spec) build() (func(), func(x *vsched.Exec) (string, error)) {
@@ -293,12 +563,29 @@ func (sp *spec) build() (func(), func(x *vsched.Exec) (string, error)) {
 	applicable := map[string]func(u unit) bool{}
 	main := func() {
 		ctx := context.Background()
-		if sp.global {
-			callbacks.InitCallbackHandlers([]callbacks.Handler{w.handler("G", sp.raw, sp.streamMod)})
-			applicable["G"] = func(u unit) bool { return true }
-		} else {
-			callbacks.InitCallbackHandlers(nil)
+		// the helper handler: ONE handler; each of its sub-handlers applies to the units of its component type within
+		// the scope the whole handler applies to
+		var hh callbacks.Handler
+		hscope := func(u unit) bool { return true }
+		if sp.helper != "" {
+			hh = w.helper(sp.hvariant, sp.raw, sp.streamMod)
+			if sp.helper == "node" {
+				hscope = func(u unit) bool { return false } // until designated below
+			}
+			for name, comp := range w.hcomp {
+				comp := comp
+				applicable[name] = func(u unit) bool { return hscope(u) && u.comp == comp }
+			}
 		}
+		var globals []callbacks.Handler
+		if sp.global {
+			globals = append(globals, w.handler("G", sp.raw, sp.streamMod))
+			applicable["G"] = func(u unit) bool { return true }
+		}
+		if sp.helper == "global" {
+			globals = append(globals, hh)
+		}
+		callbacks.InitCallbackHandlers(globals)
 		var opts []compose.Option
 		var hs []callbacks.Handler
 		for i := 0; i < sp.undes; i++ {
@@ -313,9 +600,19 @@ func (sp *spec) build() (func(), func(x *vsched.Exec) (string, error)) {
 		} else if len(hs) > 0 {
 			opts = append(opts, compose.WithCallbacks(hs...))
 		}
+		if sp.helper == "call" {
+			opts = append(opts, compose.WithCallbacks(hh))
+		}
 		designate := func(hname string, key string, pred func(u unit) bool) {
 			opts = append(opts, compose.WithCallbacks(w.handler(hname, sp.raw, sp.streamMod)).DesignateNode(key))
 			applicable[hname] = pred
+		}
+		// helper handler designated to one node: it applies to that node and to what runs inside it
+		designateHelper := func(key string, pred func(u unit) bool) {
+			if sp.helper == "node" {
+				opts = append(opts, compose.WithCallbacks(hh).DesignateNode(key))
+				hscope = pred
+			}
 		}
 		in := gprog.Canon(input)
 		switch sp.shape {
@@ -331,16 +628,17 @@ func (sp *spec) build() (func(), func(x *vsched.Exec) (string, error)) {
 				g.AddEdge(compose.START, k)
 				g.AddEdge(k, compose.END)
 				out := gprog.NodeFn(k, input)
-				units = append(units, unit{name: k, start: in, end: gprog.Canon(out), leaf: k})
+				units = append(units, unit{name: k, start: in, end: gprog.Canon(out), leaf: k, comp: "Lambda"})
 				res[k] = out[k]
 			}
-			units = append(units, unit{name: "G0", start: in, end: gprog.Canon(res)})
+			units = append(units, unit{name: "G0", start: in, end: gprog.Canon(res), comp: "Graph"})
 			if sp.desig == "leaves" {
 				for _, k := range keys {
 					k := k
 					designate("D"+k, k, func(u unit) bool { return u.name == k })
 				}
 			}
+			designateHelper("a", func(u unit) bool { return u.name == "a" })
 			r, err := g.Compile(ctx, compose.WithGraphName("G0"))
 			if err != nil {
 				runErr = err
@@ -364,13 +662,14 @@ func (sp *spec) build() (func(), func(x *vsched.Exec) (string, error)) {
 			g.AddEdge("b", compose.END)
 			outA := gprog.Val{"v": in}
 			outB := gprog.Val{"v": gprog.Canon(outA)}
-			units = append(units, unit{name: "a", start: in, end: gprog.Canon(outA), leaf: "a"})
-			units = append(units, unit{name: "b", start: gprog.Canon(outA), end: gprog.Canon(outB), leaf: "b"})
-			units = append(units, unit{name: "G0", start: in, end: gprog.Canon(outB)})
+			units = append(units, unit{name: "a", start: in, end: gprog.Canon(outA), leaf: "a", comp: "Lambda"})
+			units = append(units, unit{name: "b", start: gprog.Canon(outA), end: gprog.Canon(outB), leaf: "b", comp: "Lambda"})
+			units = append(units, unit{name: "G0", start: in, end: gprog.Canon(outB), comp: "Graph"})
 			if sp.desig == "leaves" {
 				designate("Da", "a", func(u unit) bool { return u.name == "a" })
 				designate("Db", "b", func(u unit) bool { return u.name == "b" })
 			}
+			designateHelper("b", func(u unit) bool { return u.name == "b" })
 			r, err := g.Compile(ctx, compose.WithGraphName("G0"))
 			if err != nil {
 				runErr = err
@@ -391,13 +690,14 @@ func (sp *spec) build() (func(), func(x *vsched.Exec) (string, error)) {
 				g.AddEdge(compose.START, k)
 				g.AddEdge(k, compose.END)
 			}
-			units = append(units, unit{name: "a", start: in, fails: true, leaf: "a"})
-			units = append(units, unit{name: "b", start: in, end: gprog.Canon(gprog.NodeFn("b", input)), leaf: "b"})
-			units = append(units, unit{name: "G0", start: in, fails: true})
+			units = append(units, unit{name: "a", start: in, fails: true, leaf: "a", comp: "Lambda"})
+			units = append(units, unit{name: "b", start: in, end: gprog.Canon(gprog.NodeFn("b", input)), leaf: "b", comp: "Lambda"})
+			units = append(units, unit{name: "G0", start: in, fails: true, comp: "Graph"})
 			if sp.desig == "leaves" {
 				designate("Da", "a", func(u unit) bool { return u.name == "a" })
 				designate("Db", "b", func(u unit) bool { return u.name == "b" })
 			}
+			designateHelper("a", func(u unit) bool { return u.name == "a" })
 			r, err := g.Compile(ctx, compose.WithGraphName("G0"))
 			if err != nil {
 				runErr = err
@@ -424,14 +724,16 @@ func (sp *spec) build() (func(), func(x *vsched.Exec) (string, error)) {
 			g.AddEdge(compose.START, "rt")
 			g.AddEdge("rt", compose.END)
 			out := gprog.NodeFn("rt", input)
-			units = append(units, unit{name: "rt", start: in, end: gprog.Canon(out), leaf: "rt"})
-			units = append(units, unit{name: "GoodRetriever", start: "q1", end: "[]", leaf: "GoodRetriever"})
-			units = append(units, unit{name: "BadRetriever", start: "q2", fails: true, leaf: "BadRetriever"})
-			units = append(units, unit{name: "G0", start: in, end: gprog.Canon(out)})
+			units = append(units, unit{name: "rt", start: in, end: gprog.Canon(out), leaf: "rt", comp: "Lambda"})
+			units = append(units, unit{name: "GoodRetriever", start: "q1", end: "[]", leaf: "GoodRetriever", comp: "Retriever"})
+			units = append(units, unit{name: "BadRetriever", start: "q2", fails: true, leaf: "BadRetriever", comp: "Retriever"})
+			units = append(units, unit{name: "G0", start: in, end: gprog.Canon(out), comp: "Graph"})
+			inRt := func(u unit) bool { return u.name == "rt" || u.name == "GoodRetriever" || u.name == "BadRetriever" }
 			if sp.desig == "leaves" {
 				// a handler designated to the node applies to the node and (context inheritance) the units inside it
-				designate("Drt", "rt", func(u unit) bool { return u.name == "rt" || u.name == "GoodRetriever" || u.name == "BadRetriever" })
+				designate("Drt", "rt", inRt)
 			}
+			designateHelper("rt", inRt)
 			r, err := g.Compile(ctx, compose.WithGraphName("G0"))
 			if err != nil {
 				runErr = err
@@ -443,7 +745,7 @@ func (sp *spec) build() (func(), func(x *vsched.Exec) (string, error)) {
 			// node, a failing branch on START. The graph is a unit like any other: one start, one end-type event
 			g := compose.NewGraph[gprog.Val, gprog.Val]()
 			var copts []compose.GraphCompileOption
-			gu := unit{name: "G0", start: in}
+			gu := unit{name: "G0", start: in, comp: "Graph"}
 			switch sp.shape {
 			case "start-end":
 				g.AddEdge(compose.START, compose.END)
@@ -466,6 +768,7 @@ func (sp *spec) build() (func(), func(x *vsched.Exec) (string, error)) {
 			if sp.desig == "leaves" {
 				designate("Da", "a", func(u unit) bool { return u.name == "a" })
 			}
+			designateHelper("a", func(u unit) bool { return u.name == "a" }) // node a never runs
 			r, err := g.Compile(ctx, append(copts, compose.WithGraphName("G0"))...)
 			if err != nil {
 				runErr = err
@@ -488,7 +791,7 @@ func (sp *spec) build() (func(), func(x *vsched.Exec) (string, error)) {
 				sub.AddEdge(compose.START, k)
 				sub.AddEdge(k, compose.END)
 				out := gprog.NodeFn(k, input)
-				units = append(units, unit{name: k, start: in, end: gprog.Canon(out), inSub: true, leaf: k})
+				units = append(units, unit{name: k, start: in, end: gprog.Canon(out), inSub: true, leaf: k, comp: "Lambda"})
 				sres[k] = out[k]
 			}
 			g := compose.NewGraph[gprog.Val, gprog.Val]()
@@ -499,13 +802,14 @@ func (sp *spec) build() (func(), func(x *vsched.Exec) (string, error)) {
 				g.AddEdge(k, compose.END)
 			}
 			aout := gprog.NodeFn("a", input)
-			units = append(units, unit{name: "a", start: in, end: gprog.Canon(aout), leaf: "a"})
-			units = append(units, unit{name: "s", start: in, end: gprog.Canon(sres), isSub: true})
+			units = append(units, unit{name: "a", start: in, end: gprog.Canon(aout), leaf: "a", comp: "Lambda"})
+			units = append(units, unit{name: "s", start: in, end: gprog.Canon(sres), isSub: true, comp: "Graph"})
 			res := gprog.Val{"a": aout["a"]}
 			for k, v := range sres {
 				res[k] = v
 			}
-			units = append(units, unit{name: "G0", start: in, end: gprog.Canon(res)})
+			units = append(units, unit{name: "G0", start: in, end: gprog.Canon(res), comp: "Graph"})
+			designateHelper("s", func(u unit) bool { return u.isSub || u.inSub })
 			switch sp.desig {
 			case "leaves":
 				designate("Da", "a", func(u unit) bool { return u.name == "a" })
@@ -524,8 +828,14 @@ func (sp *spec) build() (func(), func(x *vsched.Exec) (string, error)) {
 				return
 			}
 			result, runErr = exec(ctx, r, sp.call, opts)
-		case "tools", "tools-unknown":
-			cfg := &compose.ToolsNodeConfig{Tools: []tool.BaseTool{&recTool{"t1", sp.yields}, &recTool{"t2", sp.yields}}}
+		case "tools", "tools-unknown", "tools-fail", "tools-stream":
+			// tools-fail: tool t2 answers with an error: its call, the tools node and the graph end with an error event
+			// (t1 runs in parallel and ends normally); tools-stream: t2 only streams its answer
+			var t2 tool.BaseTool = &recTool{name: "t2", yield: sp.yields, fails: sp.shape == "tools-fail"}
+			if sp.shape == "tools-stream" {
+				t2 = &recSTool{name: "t2", yield: sp.yields}
+			}
+			cfg := &compose.ToolsNodeConfig{Tools: []tool.BaseTool{&recTool{name: "t1", yield: sp.yields}, t2}}
 			if sp.shape == "tools-unknown" {
 				cfg.UnknownToolsHandler = func(ctx context.Context, name, in string) (string, error) {
 					return "handled(" + name + "," + in + ")", nil
@@ -544,22 +854,25 @@ func (sp *spec) build() (func(), func(x *vsched.Exec) (string, error)) {
 				{ID: "c1", Function: schema.FunctionCall{Name: "t1", Arguments: "A"}},
 				{ID: "c2", Function: schema.FunctionCall{Name: "t2", Arguments: "B"}},
 			}}
-			units = append(units, unit{name: "t1", start: "A", end: "t1(A)", leaf: "t1"})
-			units = append(units, unit{name: "t2", start: "B", end: "t2(B)", leaf: "t2"})
+			toolsFail := sp.shape == "tools-fail"
+			units = append(units, unit{name: "t1", start: "A", end: "t1(A)", leaf: "t1", comp: "Tool"})
+			units = append(units, unit{name: "t2", start: "B", end: "t2(B)", leaf: "t2", comp: "Tool", fails: toolsFail, streamTool: sp.shape == "tools-stream"})
 			outMsgs := "[msg(tool,t1(A),calls=0),msg(tool,t2(B),calls=0)]"
 			if sp.shape == "tools-unknown" {
 				// a call answered by the unknown-tool handler is a tool call like the others
 				// two calls (t1 and the unknown one): keeps the thread count of the plain tools shape
 				msg.ToolCalls = []schema.ToolCall{msg.ToolCalls[0], {ID: "c3", Function: schema.FunctionCall{Name: "ghost", Arguments: "C"}}}
-				units = []unit{{name: "t1", start: "A", end: "t1(A)", leaf: "t1"}, {name: "ghost", start: "C", end: "handled(ghost,C)", leaf: "ghost"}}
+				units = []unit{{name: "t1", start: "A", end: "t1(A)", leaf: "t1", comp: "Tool"}, {name: "ghost", start: "C", end: "handled(ghost,C)", leaf: "ghost", comp: "Tool"}}
 				outMsgs = "[msg(tool,t1(A),calls=0),msg(tool,handled(ghost,C),calls=0)]"
 			}
-			units = append(units, unit{name: "tools", start: render(msg), end: outMsgs})
-			units = append(units, unit{name: "G0", start: render(msg), end: outMsgs})
+			units = append(units, unit{name: "tools", start: render(msg), end: outMsgs, comp: "ToolsNode", fails: toolsFail})
+			units = append(units, unit{name: "G0", start: render(msg), end: outMsgs, comp: "Graph", fails: toolsFail})
+			inTools := func(u unit) bool { return u.name == "tools" || u.name == "t1" || u.name == "t2" || u.name == "ghost" }
 			if sp.desig == "leaves" {
 				// a handler designated to the tools node applies to the node and (context inheritance) its tool calls
-				designate("Dt", "tools", func(u unit) bool { return u.name == "tools" || u.name == "t1" || u.name == "t2" || u.name == "ghost" })
+				designate("Dt", "tools", inTools)
 			}
+			designateHelper("tools", inTools)
 			r, err := g.Compile(ctx, compose.WithGraphName("G0"))
 			if err != nil {
 				runErr = err
@@ -569,30 +882,42 @@ func (sp *spec) build() (func(), func(x *vsched.Exec) (string, error)) {
 				sr, e := r.Stream(ctx, msg, opts...)
 				if e != nil {
 					runErr = e
-					return
-				}
-				var all [][]*schema.Message
-				for {
-					c, e := sr.Recv()
-					if e == io.EOF {
-						break
+					if !toolsFail {
+						return
 					}
-					if e != nil {
+				} else {
+					var all [][]*schema.Message
+					for {
+						c, e := sr.Recv()
+						if e == io.EOF {
+							break
+						}
+						if e != nil {
+							runErr = e
+							break
+						}
+						all = append(all, c)
+					}
+					sr.Close()
+					if runErr == nil {
+						m, e := concatArrays(all)
 						runErr = e
-						break
+						result = render(m)
 					}
-					all = append(all, c)
-				}
-				sr.Close()
-				if runErr == nil {
-					m, e := concatArrays(all)
-					runErr = e
-					result = render(m)
 				}
 			} else {
 				m, e := r.Invoke(ctx, msg, opts...)
 				runErr = e
 				result = render(m)
+			}
+			if toolsFail {
+				if runErr == nil {
+					runErr = fmt.Errorf("expected the run to end with the tool's error, got the result %s", result)
+				} else if !strings.Contains(runErr.Error(), "tool-failed") {
+					runErr = fmt.Errorf("expected the run to end with the tool's error, got %v", runErr)
+				} else {
+					runErr, result = nil, "<tools-fail>"
+				}
 			}
 		}
 	}
@@ -647,31 +972,55 @@ func (sp *spec) build() (func(), func(x *vsched.Exec) (string, error)) {
 					}
 				}
 				if !applicable[h](u) {
+					if len(starts)+len(ends) > 0 && w.hfns[h] != nil {
+						return "", fmt.Errorf("helper sub-handler %s (registered for component %s) does not apply to unit %s (%s) but received %d start / %d end event(s): %v", h, w.hcomp[h], u.name, u.comp, len(starts), len(ends), append(starts, ends...))
+					}
 					if len(starts)+len(ends) > 0 {
 						return "", fmt.Errorf("handler %s does not apply to unit %s but received %d start / %d end event(s): %v", h, u.name, len(starts), len(ends), append(starts, ends...))
 					}
 					continue
 				}
-				if len(starts) != 1 || len(ends) != 1 {
-					return "", fmt.Errorf("handler %s applies to unit %s and must see exactly one start and one end event, saw %d start / %d end (all events of the handler: %v)", h, u.name, len(starts), len(ends), eventsOf(w.events, h))
-				}
-				if u.fails {
-					if ends[0].kind != "error" {
-						return "", fmt.Errorf("handler %s: unit %s ended with an error/interrupt but the handler got a %s event", h, u.name, ends[0].kind)
+				// a sub-handler of the helper handler has functions for some timings only: it must be called exactly
+				// for those (handlers outside the helper have all five: one start, one end-type event)
+				wantS, wantE := 1, 1
+				st, en := sp.timings(u)
+				fns := w.hfns[h]
+				if fns != nil {
+					if !fns[st] {
+						wantS = 0
 					}
-					if !payloadOK(starts[0].payload, u.start, sp.streamMod) {
-						return "", fmt.Errorf("handler %s: start payload of unit %s is %s, the unit consumed %s", h, u.name, starts[0].payload, u.start)
+					if !fns[en] {
+						wantE = 0
 					}
-					continue
 				}
-				if ends[0].kind != "end" {
-					return "", fmt.Errorf("handler %s got an error event for unit %s of a successful run", h, u.name)
+				if len(starts) != wantS || len(ends) != wantE {
+					if fns == nil {
+						return "", fmt.Errorf("handler %s applies to unit %s and must see exactly one start and one end event, saw %d start / %d end (all events of the handler: %v)", h, u.name, len(starts), len(ends), eventsOf(w.events, h))
+					}
+					return "", fmt.Errorf("helper sub-handler %s (functions: %s) applies to unit %s (%s; timings %s / %s) and must see exactly %d start and %d end-type event(s), saw %d start / %d end (all events of the handler: %v)", h, fnList(fns), u.name, u.comp, st, en, wantS, wantE, len(starts), len(ends), eventsOf(w.events, h))
 				}
-				if !payloadOK(starts[0].payload, u.start, sp.streamMod) {
-					return "", fmt.Errorf("handler %s: start payload of unit %s is %s, the unit consumed %s", h, u.name, starts[0].payload, u.start)
+				pre := "handler " + h
+				if fns != nil {
+					pre = "helper sub-handler " + h
 				}
-				if !payloadOK(ends[0].payload, u.end, sp.streamMod) {
-					return "", fmt.Errorf("handler %s: end payload of unit %s is %s, the unit produced %s", h, u.name, ends[0].payload, u.end)
+				for _, ev := range append(append([]event{}, starts...), ends...) {
+					if ev.comp != u.comp {
+						return "", fmt.Errorf("%s: the %s event of unit %s came with the run info of a %s, the unit is a %s", pre, ev.kind, u.name, ev.comp, u.comp)
+					}
+				}
+				if wantE == 1 {
+					if u.fails && ends[0].kind != "error" {
+						return "", fmt.Errorf("%s: unit %s ended with an error/interrupt but the handler got a %s event", pre, u.name, ends[0].kind)
+					}
+					if !u.fails && ends[0].kind != "end" {
+						return "", fmt.Errorf("%s got an error event for unit %s of a successful run", pre, u.name)
+					}
+				}
+				if wantS == 1 && !payloadOK(starts[0].payload, u.start, sp.streamMod) {
+					return "", fmt.Errorf("%s: start payload of unit %s is %s, the unit consumed %s", pre, u.name, starts[0].payload, u.start)
+				}
+				if wantE == 1 && !u.fails && !payloadOK(ends[0].payload, u.end, sp.streamMod) {
+					return "", fmt.Errorf("%s: end payload of unit %s is %s, the unit produced %s", pre, u.name, ends[0].payload, u.end)
 				}
 			}
 		}
@@ -705,6 +1054,16 @@ func concatArrays(all [][]*schema.Message) ([]*schema.Message, error) {
 		out[i] = m
 	}
 	return out, nil
+}
+
+func fnList(fns map[string]bool) string {
+	var l []string
+	for _, t := range []string{"start", "end", "error", "startS", "endS"} {
+		if fns[t] {
+			l = append(l, t)
+		}
+	}
+	return strings.Join(l, ",")
 }
 
 func eventsOf(evs []event, h string) []event {
@@ -798,7 +1157,14 @@ func main() {
 	if !quick {
 		bounds = []int{0, 1, 2, 3}
 	}
-	shapes := []string{"fan2", "nested", "tools", "interrupt", "tools-unknown", "sharedlambda", "start-end", "before-first", "start-branch-fails", "retrievers", "fan3"}
+	shapes := []string{"fan2", "nested", "tools", "interrupt", "tools-unknown", "sharedlambda", "start-end", "before-first", "start-branch-fails", "retrievers", "fan3", "tools-fail", "tools-stream"}
+	type hmode struct{ where, variant string }
+	hmodes := []hmode{{}}
+	for _, where := range []string{"call", "global", "node"} {
+		for _, variant := range []string{"full", "pa", "pb"} {
+			hmodes = append(hmodes, hmode{where, variant})
+		}
+	}
 	for _, shape := range shapes {
 		desigs := []string{"", "leaves"}
 		if shape == "nested" {
@@ -811,9 +1177,6 @@ func main() {
 						continue
 					}
 					for _, global := range []bool{false, true} {
-						if undes == 0 && desig == "" && !global {
-							continue
-						}
 						for _, call := range []string{"invoke", "stream"} {
 							mods := []string{"drain"}
 							if call == "stream" {
@@ -821,39 +1184,62 @@ func main() {
 							}
 							for _, mod := range mods {
 								for _, raw := range []bool{false, true} {
-									// reduce: raw handlers and non-drain modes only in the richest configurations
-									if raw && !(undes == 3 && separate) && !(undes == 1 && desig != "") {
-										continue
+									for _, hm := range hmodes {
+										helper := hm.where != ""
+										if undes == 0 && desig == "" && !global && !helper {
+											continue
+										}
+										// reduce: raw handlers and non-drain modes only in the richest configurations
+										if raw && !(undes == 3 && separate) && !(undes == 1 && desig != "") {
+											continue
+										}
+										if mod != "drain" && !(undes >= 2) && !(desig != "" && undes == 1) && !helper {
+											continue
+										}
+										firstStep := shape == "start-end" || shape == "before-first" || shape == "start-branch-fails"
+										if firstStep && desig != "" && shape == "start-end" {
+											continue // no node to designate
+										}
+										if helper && hm.where == "node" && shape == "start-end" {
+											continue // no node to designate
+										}
+										if helper && raw && hm.variant != "full" {
+											continue // the partial sub-handlers are built handlers in any case
+										}
+										small := shape == "tools-unknown" || shape == "sharedlambda" || shape == "retrievers" || firstStep || shape == "tools-fail" || shape == "tools-stream"
+										if quick && small && !(undes <= 1 && !raw && (mod == "drain" || helper)) {
+											continue
+										}
+										if quick && shape == "fan3" && !(undes == 3 && separate && desig == "leaves") {
+											continue
+										}
+										if quick && global && undes == 3 {
+											continue
+										}
+										// quick, helper handler: alone, or (per-call) next to one undesignated handler; no other
+										// designated / global handlers; the stream copies drained or closed at once
+										if quick && helper && !(desig == "" && !global && !raw && (undes == 0 || undes == 1 && hm.where == "call") &&
+											mod != "read1" && shape != "fan3" && shape != "sharedlambda") {
+											continue
+										}
+										sp := &spec{shape: shape, undes: undes, separate: separate, global: global, desig: desig, raw: raw, call: call, streamMod: mod, yields: true,
+											helper: hm.where, hvariant: hm.variant}
+										sp.name = fmt.Sprintf("%s/undes%d-sep%v-glob%v-desig[%s]-raw%v/%s/%s", shape, undes, separate, global, desig, raw, call, mod)
+										if helper {
+											sp.name += fmt.Sprintf("/helper-%s-%s", hm.where, hm.variant)
+										}
+										sc := harness.Scenario{Name: sp.name, Bounds: bounds, MaxExecs: 1_000_000, New: sp.build,
+											Signature: func(err error) string { return sigOf(sp, err) }}
+										if c.Replay != "" {
+											c.ReplayScenario(sc)
+											continue
+										}
+										if !c.Mine(sp.name) {
+											continue
+										}
+										c.Sample(map[string]any{"scenario": sp.name, "bounds": bounds})
+										c.Add(sc)
 									}
-									if mod != "drain" && !(undes >= 2) && !(desig != "" && undes == 1) {
-										continue
-									}
-									firstStep := shape == "start-end" || shape == "before-first" || shape == "start-branch-fails"
-									if firstStep && desig != "" && shape == "start-end" {
-										continue // no node to designate
-									}
-									if quick && (shape == "tools-unknown" || shape == "sharedlambda" || shape == "retrievers" || firstStep) && !(undes <= 1 && !raw && mod == "drain") {
-										continue
-									}
-									if quick && shape == "fan3" && !(undes == 3 && separate && desig == "leaves") {
-										continue
-									}
-									if quick && global && undes == 3 {
-										continue
-									}
-									sp := &spec{shape: shape, undes: undes, separate: separate, global: global, desig: desig, raw: raw, call: call, streamMod: mod, yields: true}
-									sp.name = fmt.Sprintf("%s/undes%d-sep%v-glob%v-desig[%s]-raw%v/%s/%s", shape, undes, separate, global, desig, raw, call, mod)
-									sc := harness.Scenario{Name: sp.name, Bounds: bounds, MaxExecs: 1_000_000, New: sp.build,
-										Signature: func(err error) string { return sigOf(sp, err) }}
-									if c.Replay != "" {
-										c.ReplayScenario(sc)
-										continue
-									}
-									if !c.Mine(sp.name) {
-										continue
-									}
-									c.Sample(map[string]any{"scenario": sp.name, "bounds": bounds})
-									c.Add(sc)
 								}
 							}
 						}
@@ -869,7 +1255,23 @@ func main() {
 
 func sigOf(sp *spec, err error) string {
 	s := err.Error()
+	if strings.Contains(s, "helper sub-handler") {
+		// a failure of the dispatch inside the helper handler is a class of its own
+		switch {
+		case strings.Contains(s, "does not apply to unit"):
+			return "helper-dispatched-to-wrong-sub-handler"
+		case strings.Contains(s, "must see exactly"):
+			return "helper-event-count"
+		case strings.Contains(s, "run info of a"):
+			return "helper-run-info"
+		case strings.Contains(s, "payload"):
+			return "helper-payload-mismatch"
+		}
+		return "helper-other"
+	}
 	switch {
+	case strings.Contains(s, "run info of a"):
+		return "run-info-component"
 	case strings.Contains(s, "does not apply to unit"):
 		return "handler-fired-for-wrong-unit"
 	case strings.Contains(s, "exactly one start and one end"):
